@@ -150,6 +150,16 @@ def render(doc):
             frame = it[1]
             if ('lstlisting' in frame or 'tikzpicture' in frame) and not declared_pack:
                 frame = HIDDEN[4]       # without their packages these environments are unknown, their content is text
+            if 'LT-SKIP-BEGIN' in frame:
+                # a region whose opening marker is the very first token of the text, or follows the end marker of
+                # the previous region directly (round-5 seed C18-I)
+                if not r.src:
+                    frame = frame[1:]
+                    feats.add('skip-region-first-token')
+                elif r.src.endswith('LT-SKIP-END\n '):
+                    r.src = r.src[:-1]
+                    frame = frame[1:]
+                    feats.add('skip-regions-adjacent')
             r.src += frame % sub.src + ' '
             if name in names:
                 feats.add('listed-in-hidden-context')
